@@ -50,6 +50,8 @@ TRANSPARENT = {
     'std::iter::IntoIterator::into_iter',
     'std::result::Result::as_ref', 'std::result::Result::as_mut',
     'std::iter::Iterator::filter', 'std::iter::Iterator::rev', 'std::iter::Iterator::by_ref', 'std::iter::Iterator::skip',
+    'std::iter::Iterator::take_while', 'std::iter::Iterator::skip_while', 'std::iter::Iterator::fuse', 'std::iter::Iterator::peekable',
+    'std::iter::Iterator::take', 'std::iter::Iterator::step_by',
 }
 
 
